@@ -87,6 +87,17 @@ def f(**kw):
 def g(**kw):
     rec("g", kw)
 ''', [("f", _ev("e1"), {}), ("g", _ev("e1", lambda d: d["arg"] != 2), {})])
+cfg("ev_two_funcs_kwargs", "event", '''
+@event_trigger("e1", kwargs={"who": 1})
+def f(**kw):
+    rec("f", kw)
+@event_trigger("e1")
+def g(**kw):
+    rec("g", kw)
+@event_trigger("e1", kwargs={"who": 3, "arg": "G3"})
+def h(**kw):
+    rec("h", kw)
+''', [("f", _ev("e1"), {"who": 1}), ("g", _ev("e1"), {}), ("h", _ev("e1"), {"who": 3, "arg": "G3"})])
 cfg("ev_kwargs_override", "event", '''
 @event_trigger("e1", kwargs={"who": 5, "arg": "OVR"})
 def f(**kw):
@@ -110,6 +121,7 @@ def f(**kw):
     test.sink(v=kw.get("arg"))
     service.call("test", "sink", v2=kw.get("arg"))
     event.fire("out2", context=kw["context"], a=1)
+    event.fire("out3", context="notctx", b=2)
     rec("f", kw, "end")
 ''', [("f", _ev("e1"), {})])
 
@@ -235,6 +247,7 @@ def run_case(cname, legacy, seq, sched):
         bus_out = []
         w.hass.bus.async_listen("out", lambda ev: bus_out.append(("out", dict(ev.data), ev.context)))
         w.hass.bus.async_listen("out2", lambda ev: bus_out.append(("out2", dict(ev.data), ev.context)))
+        w.hass.bus.async_listen("out3", lambda ev: bus_out.append(("out3", dict(ev.data), ev.context)))
         w.hass.bus.async_listen("state_changed", lambda ev: bus_out.append(("state", ev.data["entity_id"], ev.context))
                                 if ev.data["entity_id"] == "pyscript.o" else None)
         w.hass.bus.async_fire(EVENT_HOMEASSISTANT_STARTED)
@@ -281,6 +294,20 @@ def run_case(cname, legacy, seq, sched):
         if fail is None and cname == "ev_sleep":
             starts = [c for c in calls if c[1] == "start"]
             ends = [c for c in calls if c[1] == "end"]
+            # a run sees its own arguments after it slept (runs overlap; they must not share state)
+            if sorted((c[3:] for c in starts), key=repr) != sorted((c[3:] for c in ends), key=repr):
+                fail = {"kind": "run-state-mixed-up", "expected": [c[3:] for c in starts], "observed": [c[3:] for c in ends]}
+            else:
+                # pair runs by time: the run that started at t ends at t + 5 and must still see its own arguments
+                by_t = {}
+                for c in starts:
+                    by_t.setdefault(c[2], []).append(c[3:])
+                for c in ends:
+                    mine = by_t.get(round(c[2] - 5.0, 3), [])
+                    if c[3:] not in mine:
+                        fail = {"kind": "run-state-mixed-up", "expected": mine, "observed": c[3:]}
+                        break
+        if fail is None and cname == "ev_sleep":
             if len(ends) != len(starts) or any(round(e[2] - s[2], 3) != 5.0 for s, e in zip(sorted(starts, key=lambda c: c[2]), sorted(ends, key=lambda c: c[2]))):
                 fail = {"kind": "sleeping-run-disturbed", "expected": "every run ends 5 s after it started", "observed": calls}
         if fail is None and cname == "ev_emit":
@@ -341,6 +368,13 @@ def check_emit(calls, bus_out, sink_calls, ctx_ids):
                 return {"kind": "service-call-data", "expected": s[5], "observed": data}
     if len(by_parent) != len(starts):
         return {"kind": "context-not-distinct", "expected": len(starts), "observed": len(by_parent)}
+    out3 = [b for b in bus_out if b[0] == "out3"]
+    for s, o in zip(starts, out3):
+        # a context argument that is not a Context is ordinary event data
+        if o[1] != {"context": "notctx", "b": 2} or o[2].parent_id != inv.get(s[10]):
+            return {"kind": "event-fire-nonctx-arg", "expected": {"context": "notctx", "b": 2}, "observed": o[1]}
+    if len(out3) != len(starts):
+        return {"kind": "emit-count", "expected": len(starts), "observed": ("out3", len(out3))}
     out2 = [b for b in bus_out if b[0] == "out2"]
     for s, o in zip(starts, out2):
         if o[1] != {"a": 1} or o[2].id != inv.get(s[10]):
